@@ -2,7 +2,8 @@ import GmVerif.Thm.C20b
 
 #print axioms GmVerif.Thm.C20b.decrypt_total
 #print axioms GmVerif.Thm.C20b.verify_total
-#print axioms GmVerif.Thm.C20b.mod_n_from_hash_panic_iff
+#print axioms GmVerif.Thm.C20b.mod_n_from_hash_total
+#print axioms GmVerif.Thm.C20b.mod_n_from_hash_not_panic
 #print axioms GmVerif.Thm.C20b.mod_n_from_hash_ok
 #print axioms GmVerif.Thm.C20b.mod_n_from_hash_not_err
 #print axioms GmVerif.Thm.C20b.hash1_total
